@@ -159,6 +159,10 @@ type runCfg struct {
 	recMode  int // -1 no recorder, 0 recording, k>0 error at the k-th Record call
 	status   statusMode
 	nilSet   bool // pass settings == nil (all defaults)
+	// method, when non-nil, is the Method value to run with (group reuse: a value
+	// that has already been through another Minimize call); otherwise a fresh one is made.
+	method optimize.Method
+	trace  bool // record the full event trace of the run in runLog.trace
 }
 
 func (c *runCfg) start() []float64 {
@@ -232,6 +236,15 @@ type runLog struct {
 	statusFired                            bool
 	minF                                   float64 // least non-NaN value returned by Func (+Inf if none)
 	f0                                     float64 // f(x0) computed by the harness
+	trace                                  []string // every callback, in order (only if runCfg.trace)
+}
+
+func bitsOf(v []float64) string {
+	var b strings.Builder
+	for _, x := range v {
+		fmt.Fprintf(&b, "%016x.", math.Float64bits(x))
+	}
+	return b.String()
 }
 
 func xkey(x []float64) string {
@@ -332,6 +345,9 @@ func (c *runCfg) body(out *runResult) func() {
 			}
 			vlib.Atomically(func() {
 				lg.nF++
+				if c.trace {
+					lg.trace = append(lg.trace, "Func x="+bitsOf(x)+" -> "+bitsOf([]float64{f}))
+				}
 				q := lg.pt(x)
 				q.f = append(q.f, f)
 				if f < lg.minF {
@@ -349,6 +365,9 @@ func (c *runCfg) body(out *runResult) func() {
 				}
 				vlib.Atomically(func() {
 					lg.nG++
+					if c.trace {
+						lg.trace = append(lg.trace, "Grad x="+bitsOf(x)+" -> "+bitsOf(g))
+					}
 					q := lg.pt(x)
 					q.g = append(q.g, append([]float64(nil), g...))
 				})
@@ -358,7 +377,12 @@ func (c *runCfg) body(out *runResult) func() {
 			p.Hess = func(h *mat.SymDense, x []float64) {
 				vsched.Point("Hess")
 				inst.h(h, x)
-				vlib.Atomically(func() { lg.nH++ })
+				vlib.Atomically(func() {
+					lg.nH++
+					if c.trace {
+						lg.trace = append(lg.trace, "Hess x="+bitsOf(x))
+					}
+				})
 			}
 		}
 		if c.status.at > 0 {
@@ -414,7 +438,11 @@ func (c *runCfg) body(out *runResult) func() {
 			}
 		}
 		out.lg = lg
-		out.res, out.err = optimize.Minimize(p, x0, set, c.m.mk(mkLS(c.ls), c.o))
+		meth := c.method
+		if meth == nil {
+			meth = c.m.mk(mkLS(c.ls), c.o)
+		}
+		out.res, out.err = optimize.Minimize(p, x0, set, meth)
 	}
 }
 
